@@ -64,7 +64,7 @@ def run(ctx):
                'float32 memmap compared with a bound of 3e-7*(1+max|log10 F|) dex; float32 (1E) tables with 1e-7 dex (scipy interpolates them in float32)',
                'chi^2 ties between distances: any minimiser accepted')
     ctx.require_events('Fitter.__init__:post', 'Fitter.fit:post', 'grid_checked')
-    ctx.require_regimes('unit:flux-not-mJy', 'apertures:per-band-tables', 'n=1', 'n=2', 'n>2', 'beyond_table', 'av_clipped', 'av_interior', 'best_first', 'best_mid',
+    ctx.require_regimes('limit_penalised', 'unit:flux-not-mJy', 'apertures:per-band-tables', 'n=1', 'n=2', 'n>2', 'beyond_table', 'av_clipped', 'av_interior', 'best_first', 'best_mid',
                         'best_last', 'style:v1', 'style:v2name', 'style:v2wav', 'memmap_on', 'memmap_off', 'unit:pc', 'unit:cm', 'angle:arcmin', 'angle:deg')
     n_pkg = 14 if ctx.quick else 160
     n_rng = 3
